@@ -73,3 +73,20 @@ Theorem C15_rebuild_failure_publishes_nothing :
   forall (k : nat) (b : bool), run expand_simple_effects k false = Some b -> b = false.
 Proof. exact expand_simple_failure_atomic. Qed.
 Print Assumptions C15_rebuild_failure_publishes_nothing.
+
+(* ---- run-tied form (RunTied.v): the [lesc] disjunct of C15_insert_on_c_table_no_policy_exception holds trivially for tables without limits; this one does not ---- *)
+From LC Require Import AcceptModel RunTied.
+Theorem C15_insert_on_c_table_no_policy_exception_tied :
+  forall (c : config) (hash : N -> N),
+  InvDefs.cfg_ok c ->
+  nothrow c = true ->
+  forall (t : table) (k : N) (v : Z) (g : Z -> bool -> option (Z * bool)) (t' : table)
+  (r : exn + bool * list rv * (N * N)),
+  lgood c hash t ->
+  no_limits t ->
+  uprase_gen c hash false t k v g = (t', r) ->
+  tied_esc t' \/
+  (exists (ins : bool) (lg : list rv) (pos : N * N),
+  r = inr (ins, lg, pos) /\ lgood c hash t' /\ no_limits t').
+Proof. exact c_table_insert_no_policy_exception_tied. Qed.
+Print Assumptions C15_insert_on_c_table_no_policy_exception_tied.
